@@ -24,7 +24,11 @@ TInv == /\ l <= Len(Trace) /\ T.ev = "inv" /\ l' = l + 1
         /\ pend' = Append(pend, [op |-> T.op, st |-> "inv", line |-> l])
         /\ UNCHANGED cvars
 Idx(op) == CHOOSE i \in 1..Len(pend) : pend[i].op = op
+\* Every linearisation can be rearranged so that each operation takes effect just before SOME response event (delaying
+\* an effect past invocation events changes nothing): Lin is enabled only when the next event is a response.  This keeps
+\* the search small without losing histories.
 Lin == \E i \in 1..Len(pend) :
+         /\ l <= Len(Trace) /\ T.ev = "res"
          /\ pend[i].st = "inv"
          /\ LET o == Trace[pend[i].line] IN
               CASE o.kind = "write" -> IF o.ok THEN WriteOK(o.e, o.id, o.n) ELSE WriteErr(o.e, o.id, o.n)
